@@ -267,6 +267,201 @@ def mutated_url_cases(tier):
         yield ("mutated", proxy, h1, h2, alpn, [(r[0], r[1], r[2], "@mutate") for r in reqs])
 
 
+
+# ---------------------------------------------------------------------------------------------------------------------
+# Pools that are given no ssl_context: httpcore.default_ssl_context() is on the path.  The name `ssl` inside httpcore._ssl is
+# re-bound to a namespace whose create_default_context() hands out recording contexts, so what each handshake offers is what
+# the context it was given holds *at handshake time*.  Two pools with different http2 switches work at once: request B (pool B)
+# runs, start to finish, inside the k-th trace callback of request A (pool A) - for every k - which puts B's whole connection
+# establishment at every point of A's, in particular between A's set_alpn_protocols() and A's handshake.
+
+class _FakeSSLNamespace:
+    def __init__(self, real):
+        self._real = real
+        self.made = []
+
+    def create_default_context(self, *a, **k):
+        c = _DefaultCtx(f"default{len(self.made)}")
+        self.made.append(c)
+        return c
+
+    def __getattr__(self, name):
+        return getattr(self._real, name)
+
+
+class _DefaultCtx(sim.RecordingSSLContext):
+    def load_verify_locations(self, *a, **k):
+        self.verify_loaded = True
+
+
+def _install_default_ctx_seam():
+    import ssl as real_ssl
+    import httpcore._ssl as m
+    assert hasattr(m, "ssl") and hasattr(m, "default_ssl_context"), "seam gone: httpcore._ssl.ssl / default_ssl_context"
+    ns = _FakeSSLNamespace(real_ssl)
+    m.ssl = ns
+    # a memoising wrapper around default_ssl_context (functools cache) must not carry contexts from one execution into the next
+    for holder in (m, httpcore):
+        fn = getattr(holder, "default_ssl_context", None)
+        if hasattr(fn, "cache_clear"):
+            fn.cache_clear()
+    return ns, (m, real_ssl)
+
+
+def _remove_default_ctx_seam(tok):
+    m, real_ssl = tok
+    m.ssl = real_ssl
+
+
+def make_default_pool(variant, backend, proxy, http1, http2):
+    cls = httpcore.ConnectionPool if variant == "sync" else httpcore.AsyncConnectionPool
+    p = None
+    if proxy == "http":
+        p = httpcore.Proxy(f"http://{scen.PROXY_HOST}:{scen.PROXY_PORT}")
+    elif proxy == "https":
+        p = httpcore.Proxy(f"https://{scen.PROXY_HOST}:{scen.PROXY_PORT}")
+    elif proxy in ("socks5", "socks5h"):
+        p = httpcore.Proxy(f"{proxy}://{scen.SOCKS_HOST}:{scen.SOCKS_PORT}")
+    return cls(ssl_context=None, proxy=p, http1=http1, http2=http2, network_backend=backend, max_connections=10)
+
+
+def run_defctx(case, variant, k):
+    """k = None: request A alone (returns the number of trace events); else request B inside A's k-th trace event."""
+    _, proxyA, proxyB, swA, swB, alpn, schemeA, schemeB = case
+    topo = Topo(proxyA if proxyA != "none" else proxyB, alpn)
+    w = SeqWorld(Chooser([]), topo.router, variant=variant)
+    w.env.fp = None
+    ns, tok = _install_default_ctx_seam()
+    try:
+        poolA = make_default_pool(variant, w.backend, proxyA, *swA)
+        poolB = make_default_pool(variant, w.backend, proxyB, *swB)
+        urlA, urlB = f"{schemeA}://a.example/t/q0", f"{schemeB}://b.example/t/q1"
+        results = {}
+        events = []
+        if variant == "sync":
+            def tr(name, info):
+                events.append(name)
+                if k is not None and len(events) - 1 == k:
+                    try:
+                        r = poolB.request("GET", urlB)
+                        results[1] = ("ok", r.status, r.content)
+                    except Exception as e:
+                        results[1] = ("exc", e)
+
+            def prog():
+                try:
+                    r = poolA.request("GET", urlA, extensions={"trace": tr})
+                    results[0] = ("ok", r.status, r.content)
+                except Exception as e:
+                    results[0] = ("exc", e)
+                poolA.close()
+                poolB.close()
+            res = w.run(sync_fn=prog)
+        else:
+            async def atr(name, info):
+                events.append(name)
+                if k is not None and len(events) - 1 == k:
+                    try:
+                        r = await poolB.request("GET", urlB)
+                        results[1] = ("ok", r.status, r.content)
+                    except Exception as e:
+                        results[1] = ("exc", e)
+
+            async def aprog():
+                try:
+                    r = await poolA.request("GET", urlA, extensions={"trace": atr})
+                    results[0] = ("ok", r.status, r.content)
+                except Exception as e:
+                    results[0] = ("exc", e)
+                await poolA.aclose()
+                await poolB.aclose()
+            res = w.run(async_fn=aprog)
+    finally:
+        _remove_default_ctx_seam(tok)
+    return topo, results, res, events, ns
+
+
+def judge_defctx(case, variant, k, topo, results, res, events, ns):
+    out = []
+    _, proxyA, proxyB, swA, swB, alpn, schemeA, schemeB = case
+    where = events[k] if (k is not None and k < len(events)) else None
+
+    def bad(kind, msg, **sigx):
+        out.append({"oracle": "C10." + kind, "message": f"{msg} | default ssl contexts, variant={variant} A=(proxy {proxyA}, http1/http2 {swA}, {schemeA}) B=(proxy {proxyB}, http1/http2 {swB}, {schemeB}) alpn={alpn}; B ran inside A's trace event #{k} ({where})",
+                    "signature": dict({"harness": "default-context", "kind": kind, "proxy": proxyA}, **sigx),
+                    "case": {"defctx": [list(x) if isinstance(x, tuple) else x for x in case], "variant": variant, "k": k}})
+
+    if res[0] != "ok":
+        bad("harness-" + res[0], f"program did not finish: {res}")
+        return out
+    sight = topo.sightings()
+    want = [(0, schemeA, "a.example", swA)] + ([(1, schemeB, "b.example", swB)] if k is not None else [])
+    for i, scheme, host, (h1, h2) in want:
+        r = results.get(i)
+        tokb = f"q{i}".encode()
+        if r is None:
+            bad("request-missing", f"request {i} never ran")
+            continue
+        if r[0] == "exc":
+            bad("request-failed", f"request {i} failed: {exc_class(r[1])}: {r[1]}", exc=exc_class(r[1]))
+            continue
+        if r[2] != b"<" + tokb + b">":
+            bad("wrong-response", f"request {i} got {r[2]!r}")
+        s = sight.get(tokb, [])
+        if len(s) != 1:
+            bad("sightings", f"request {i} seen {len(s)} times")
+            continue
+        s = s[0]
+        if s["where"] == "forward-proxy":
+            continue
+        if s["where"] != (host, DEFAULT[scheme]):
+            bad("wrong-destination", f"request {i} for {host} was carried by a stream established to {s['where']}")
+        layers = s["conn"].tls
+        tls_wanted = scheme in ("https", "wss")
+        if tls_wanted and not layers:
+            bad("tls-missing", f"request {i} ({scheme}) travelled without TLS to the origin")
+        if not tls_wanted and layers:
+            bad("tls-unwanted", f"request {i} ({scheme}) was TLS-wrapped towards the origin")
+        for L in layers[:1]:
+            if ("h2" in L["offered"]) != bool(h2):
+                bad("alpn-offer", f"request {i}: the handshake offered ALPN {L['offered']} although its pool has http2={h2}")
+            if "http/1.1" not in L["offered"]:
+                bad("alpn-offer", f"request {i}: ALPN list {L['offered']} lacks http/1.1")
+        negotiated_h2 = bool(layers) and layers[0]["selected"] == "h2"
+        want_h2 = negotiated_h2 or (h2 and not h1)
+        if (s["proto"] == "h2") != want_h2:
+            bad("protocol", f"request {i}: spoke {s['proto']}; ALPN selected {layers[0]['selected'] if layers else None}, http1={h1}, http2={h2}")
+        if (s["proto"] == "h2") and not h2:
+            bad("h2-on-http1-pool", f"request {i}: HTTP/2 spoken on a pool with http2=False")
+    for c in ns.made:
+        if not getattr(c, "verify_loaded", False):
+            bad("trust-store", "a default context was used without the certificate bundle being loaded into it")
+    return out
+
+
+def defctx_cases(tier):
+    sw = [(True, False), (True, True)]
+    for proxyA in (["none", "http", "https", "socks5"] if tier == "thorough" else ["none", "http", "socks5"]):
+        for proxyB in sorted({"none", proxyA}):
+            if proxyA != "none" and proxyB != "none" and proxyA != proxyB:
+                continue
+            for swA, swB in itertools.product(sw, sw):
+                for alpn in (["h2", "http/1.1", None] if tier == "thorough" else ["h2"]):
+                    for schemeA, schemeB in ([("https", "https"), ("wss", "https"), ("https", "http"), ("http", "https")] if tier == "thorough" else [("https", "https"), ("http", "https")]):
+                        yield ("defctx", proxyA, proxyB, swA, swB, alpn, schemeA, schemeB)
+
+
+def run_defctx_case(case, variant):
+    """All nesting points of one configuration.  Returns (#runs, violations)."""
+    topo, results, res, events, ns = run_defctx(case, variant, None)
+    out = judge_defctx(case, variant, None, topo, results, res, events, ns)
+    n = 1
+    for k in range(len(events)):
+        t = run_defctx(case, variant, k)
+        out += judge_defctx(case, variant, k, *t)
+        n += 1
+    return n, out
+
 def run_case(case, variant):
     kind, proxy, h1, h2, alpn, reqs = case
     reqs = [tuple(r) for r in reqs]
@@ -275,6 +470,10 @@ def run_case(case, variant):
 
 
 def replay_case(case):
+    if "defctx" in case:
+        c = tuple(tuple(x) if isinstance(x, list) else x for x in case["defctx"])
+        t = run_defctx(c, case["variant"], case["k"])
+        return judge_defctx(c, case["variant"], case["k"], *t)
     return run_case(tuple(case["case"]), case["variant"])
 
 
@@ -282,6 +481,12 @@ def _job(chunk):
     out, n, classes = [], 0, set()
     for case in chunk:
         for variant in ("sync", "async"):
+            if case[0] == "defctx":
+                m, v = run_defctx_case(case, variant)
+                n += m
+                out += v[:3]
+                classes.add((case[0], case[1], case[2], case[3], case[4], case[5], bool(v)))
+                continue
             n += 1
             v = run_case(case, variant)
             out += v[:3]
@@ -290,7 +495,7 @@ def _job(chunk):
 
 
 def check(tier="quick", seed=0, workers=None, only=None):
-    allc = list(config_cases(tier)) + list(pair_cases(tier)) + list(mutated_url_cases(tier))
+    allc = list(config_cases(tier)) + list(pair_cases(tier)) + list(mutated_url_cases(tier)) + list(defctx_cases(tier))
     nw = workers or min(16, os.cpu_count() or 1)
     size = max(1, len(allc) // (nw * 8))
     chunks = [allc[i:i + size] for i in range(0, len(allc), size)]
@@ -301,10 +506,12 @@ def check(tier="quick", seed=0, workers=None, only=None):
             viols += v
             classes |= cl
     ncfg = sum(1 for c in allc if c[0] == "config")
+    ndef = sum(1 for c in allc if c[0] == "defctx")
     cov = {"evaluations": total, "distinct_nontrivial": len(classes), "exhaustive": True,
            "rule": ("full configuration product scheme(4) x port form(4) x proxy mode(5) x http1/http2 switches(3) x ALPN outcome(3) x sni_hostname(2), the same with the target request extension, and every request "
                     "sequence of length 2-3 over every pair of origins (4 schemes x 2 hosts x 4 port forms) differing in exactly one effective component (also with all requests of a sequence made from one URL object changed in place), sync and async; "
-                    "distinct class = (kind, proxy, switches, ALPN, schemes of the sequence, violated?)"),
-           "samples": [{"case": repr(c)[:300]} for c in allc[:: max(1, len(allc) // 5)][:5]], "configurations": ncfg, "pair_sequences": len(allc) - ncfg}
+                    "distinct class = (kind, proxy, switches, ALPN, schemes of the sequence, violated?); default-context cases: two pools built with ssl_context=None (httpcore.default_ssl_context() on the path, "
+                    "the name ssl inside httpcore._ssl re-bound to hand out recording contexts), a request of pool B running start to finish inside every single trace event of a request of pool A, x http2 switches of A and B x proxy kind"),
+           "samples": [{"case": repr(c)[:300]} for c in allc[:: max(1, len(allc) // 5)][:5]], "configurations": ncfg, "pair_sequences": len(allc) - ncfg - ndef, "default_context_configurations": ndef}
     return {"level": "exploration", "coverage": cov, "violations": viols,
             "assumptions": ["the origin peer records the TLS handshakes it saw itself (SNI, offered ALPN) and detects HTTP/2 by the client preface; it selects an ALPN protocol only among those offered"]}
